@@ -38,8 +38,11 @@ struct Walker : dv::Typed<int, Walker> {
 		for(auto const& s : steps) {
 			++n;
 			It& it = regs[static_cast<std::size_t>(s.r)];
+			bool post_ok = true;  // postfix forms return the old position
 			if(s.op == "inc") { ++it; }
 			else if(s.op == "dec") { --it; }
+			else if(s.op == "pinc") { It before = it; It old = it++; post_ok = (old == before); }
+			else if(s.op == "pdec") { It before = it; It old = it--; post_ok = (old == before); }
 			else if(s.op == "add") { it += s.arg; }
 			else if(s.op == "sub") { it -= s.arg; }
 			else if(s.op == "plus") { it = it + s.arg; }
@@ -56,7 +59,7 @@ struct Walker : dv::Typed<int, Walker> {
 			else if(s.op == "begin") { it = b; }
 			idx_t pos = it - b;
 			CIt cit = it;  // const iterator to the same position: equal, designates the same element, steps the same way
-			bool ce = (cit == it && !(cit != it));
+			bool ce = (cit == it && !(cit != it)) && post_ok;
 			if(pos >= 0 && pos < size) {
 				ce = ce && (static_cast<void const*>(deref(cit)) == static_cast<void const*>(deref(it)));
 				CIt c2 = cit; ++c2; --c2;
